@@ -136,6 +136,7 @@ func (h H) layoutAgreement(rule string) {
 		base, den, o, add, ok := core.LinNorm(h.arg(c, 1))
 		h.C.Check(rule+" removeGTE-count", "(*log.segment).removeGTE setOffset", ok && den == 1 && o == 0 && add == -1 && (base == "($1 - segment.prevIndex)") && h.argStr(c, 2) == "0", h.pos(c), "removeGTE(i) must keep i-prevIndex-1 entries; found count "+h.argStr(c, 1))
 	}
+	h.C.Check(rule+" removeGTE-size", "(*log.segment).removeGTE size-refreshed", len(h.storesIn(rg, "log:segment.size")) >= 1, h.fpos(rg), "back removal lowers the entry count but not the data size: the next append would be written behind the removed entries' bytes")
 	for _, s := range h.storesIn(rg, "log:segment.size") {
 		got := rfi.Sym(storeVal(s.Instr)).String()
 		h.C.Check(rule+" removeGTE-size", "(*log.segment).removeGTE store size", got == "(*log.segment).offset(segment, ((($1 - segment.prevIndex) - 1) + 1))" || got == "(*log.segment).offset(segment, ($1 - segment.prevIndex))", h.pos(s.Instr), "after keeping n' entries the data size is slot n'+1; found "+got)
